@@ -44,7 +44,7 @@ def linMono (monos : List Int) (w : List Rat) (eps : Rat) : Bool :=
 def linMdom (md : Pairs) (w : List Rat) (eps : Rat) : Bool :=
   md.all (fun c => decide (-eps ≤ getV w c.1 - getV w c.2))
 def linRdom (monos : List Int) (rd : Pairs) (los his : List (Option Rat)) (w : List Rat) (eps : Rat) : Bool :=
-  let sc := scalings monos los his
+  let sc := scalingsAll monos los his
   rd.all (fun c => decide (-eps ≤ getV sc c.1 * getV w c.1 - getV sc c.2 * getV w c.2))
 
 def acceptsLinear (monos : List Int) (md rd : Pairs) (los his : List (Option Rat)) (ord : NormOrd)
